@@ -1371,3 +1371,28 @@ fn tendency_i16_wasm32_simd128(
     let x = v128_bitselect(neg_x, x, need_neg);
     v128_and(no_skip, x)
 }
+
+/// Verification hooks (`--cfg jxl_oxide_verif`): the scalar kernels, re-exported for the harness crate.
+#[cfg(jxl_oxide_verif)]
+pub mod verif {
+    use jxl_grid::MutableSubgrid;
+
+    pub fn inverse_h_i32_base(merged: &mut MutableSubgrid<'_, i32>) {
+        super::inverse_h_i32_base(merged)
+    }
+    pub fn inverse_h_i16_base(merged: &mut MutableSubgrid<'_, i16>) {
+        super::inverse_h_i16_base(merged)
+    }
+    pub fn inverse_v_i32_base(merged: &mut MutableSubgrid<'_, i32>) {
+        super::inverse_v_i32_base(merged)
+    }
+    pub fn inverse_v_i16_base(merged: &mut MutableSubgrid<'_, i16>) {
+        super::inverse_v_i16_base(merged)
+    }
+    pub fn tendency_i32(a: i32, b: i32, c: i32) -> i32 {
+        super::tendency_i32(a, b, c)
+    }
+    pub fn tendency_i16(a: i16, b: i16, c: i16) -> i16 {
+        super::tendency_i16(a, b, c)
+    }
+}
